@@ -18,7 +18,7 @@ from __future__ import annotations
 
 import ast
 
-from engine.cfg import call_name, cfg_of
+from engine.cfg import expand_aliases, call_name, cfg_of
 from engine.errors import AnalysisError
 from engine.repo import walk_no_nested
 from engine.util import calls_in, dotted, local_assignments, unparse
@@ -84,7 +84,7 @@ def run(ctx):  # noqa: C901, PLR0912, PLR0915
     ctx.ob('C09.R1', 'increment and read in one critical section', ok,
            'generate_transaction_id: `+= 1` and the returned read lie in one `with self._transaction_id_lock` region',
            fi=gt, witness=[n.text() for n in touch])
-    hr = repo.func('sdc11073.provider.porttypes.porttypebase.ServiceWithOperations._handle_operation_request')
+    hr = expand_aliases(repo.func('sdc11073.provider.porttypes.porttypebase.ServiceWithOperations._handle_operation_request'))
     g = cfg_of(hr)
     gens = g.nodes_calling('generate_transaction_id')
     ok = len(gens) == 1 and not gens[0][0].loops
@@ -121,8 +121,12 @@ def run(ctx):  # noqa: C901, PLR0912, PLR0915
     if put and isinstance(put[0].args[0], ast.Tuple):
         names = [unparse(e) for e in put[0].args[0].elts]
         tup_pos = names.index('transaction_id') if 'transaction_id' in names else None
+    # the worker's local that holds what came out of the operations queue (whatever it is called), and its unpacking
+    qvars = {n.targets[0].id for n in walk_no_nested(run_.node) if isinstance(n, ast.Assign)
+             and isinstance(n.targets[0], ast.Name) and isinstance(n.value, ast.Call) and call_name(n.value) == 'get'
+             and '_operations_queue' in unparse(n.value.func)}
     unp = [n for n in walk_no_nested(run_.node) if isinstance(n, ast.Assign) and isinstance(n.targets[0], ast.Tuple)
-           and unparse(n.value) == 'from_queue']
+           and isinstance(n.value, ast.Name) and n.value.id in qvars]
     wid = unparse(unp[0].targets[0].elts[tup_pos]) if unp and tup_pos is not None and \
         len(unp[0].targets[0].elts) == len(put[0].args[0].elts) else None
     wn = calls_in(run_.node, 'notify_operation')
